@@ -213,6 +213,9 @@ fn exchange_legacy(t: &mut Trace, rng: &mut Rng) -> usize {
     let wait = *rng.pick(&[0usize, 0, 1, 1 + P]);
     let batch = wait == 1 + P && rng.chance(1, 2);
     let strict = rng.chance(1, 2);
+    // RTMP 5.2.4: packet 2 carries the peer's time, then "time2" (when the peer's packet 1 was read), then the random echo -
+    // so a peer following the description does NOT send a byte-exact copy of our packet 1
+    let stamp = rng.chance(1, 2);
     let a_starts = wait > 0 || rng.chance(1, 2);
     if a_starts {
         let (ev, bytes) = gen_event(&mut a);
@@ -230,13 +233,15 @@ fn exchange_legacy(t: &mut Trace, rng: &mut Rng) -> usize {
             to_a.extend_from_slice(&p1);
             if batch {
                 sent2 = true;
-                let echo = from_a[1..1 + P].to_vec();
+                let mut echo = from_a[1..1 + P].to_vec();
+                if stamp { echo[4..8].copy_from_slice(&[0, 0, 1, 44]); }
                 to_a.extend_from_slice(&echo);
             }
         }
         if sent01 && !sent2 && from_a.len() >= 1 + P {
             sent2 = true;
-            let echo = from_a[1..1 + P].to_vec();
+            let mut echo = from_a[1..1 + P].to_vec();
+            if stamp { echo[4..8].copy_from_slice(&[0, 0, 1, 44]); }
             to_a.extend_from_slice(&echo);
         }
         if sent2 && !sent_t && (!strict || from_a.len() >= 1 + 2 * P) {
@@ -348,6 +353,35 @@ pub fn generate(kind: &str, tier: &str, seed: u64, shard: u64, nshards: u64, pat
                     calls += exchange(&mut t, &mut rng, true); // and with the real random fill
                 }
                 runs += 1;
+            }
+            // own packets, EVERY offset: the deterministic fill is re-seeded until the four selector bytes of the role's
+            // scheme have summed to each of the 728 offsets once (a coupon collector: ~5 000 packets per role); only the
+            // packet that reaches a new offset is scanned and logged
+            if shard == 0 {
+                for role in ["client", "server"].iter() {
+                    let mut seen = vec![false; 728];
+                    let mut left = 728;
+                    let mut tries = 0u32;
+                    while left > 0 && tries < 200_000 {
+                        tries += 1;
+                        rml_rtmp::verif::set_fill(Some((rng.next(), rng.next() | 1)));
+                        let mut h = Handshake::new(if *role == "client" { PeerType::Client } else { PeerType::Server });
+                        let b = match catch_unwind(AssertUnwindSafe(|| h.generate_outbound_p0_and_p1())) { Ok(Ok(b)) => b, _ => break };
+                        rml_rtmp::verif::set_fill(None);
+                        if b.len() != 1 + P { break; }
+                        let p1 = &b[1..];
+                        let sel = if *role == "client" { &p1[8..12] } else { &p1[772..776] };
+                        let off = (sel.iter().map(|x| *x as usize).sum::<usize>()) % 728;
+                        if !seen[off] {
+                            seen[off] = true;
+                            left -= 1;
+                            t.emit(&json!({"ev":"HsNew","side":"A","role":role}));
+                            t.emit(&p1_facts(p1, role, true, -1));
+                            runs += 1;
+                        }
+                    }
+                    rml_rtmp::verif::set_fill(None);
+                }
             }
             // digest-less peers under fragmentation: the answer must be an exact echo
             for _ in 0..12 {
